@@ -4,6 +4,7 @@ import (
 	"errors"
 	"fmt"
 	"math"
+	"math/big"
 	"strings"
 	"testing"
 
@@ -188,13 +189,29 @@ func TestC22(t *testing.T) {
 				col.ReportKnown("access-at-end-of-address-space", "emulating lw x1,-4(x0) (a memory access whose range ends at 2^64) panics: low cannot be greater than high")
 			}
 		}
-		// exclusion by construction: prompts are answered with values that keep
-		// data pointers away from the end of the address space
+		// exclusion by construction: when the UI asks for a register the generated
+		// programs use as a data pointer (x8, x9), the answer is kept at least 4 KiB
+		// away from both ends of the address space (offsets are 12 bit); every other
+		// prompt gets the drawn answer unchanged
 		uiInput.dflt = "4096"
+		uiInput.adapt = func(prompt, line string) string {
+			if !strings.Contains(prompt, "value of register x8 ") && !strings.Contains(prompt, "value of register x9 ") {
+				return line
+			}
+			v, ok := new(big.Int).SetString(strings.TrimSpace(line), 0)
+			if !ok {
+				return line
+			}
+			if v.Sign() < 0 || v.Cmp(big.NewInt(4096)) < 0 || v.BitLen() > 62 {
+				col.Excluded("access-at-end-of-address-space")
+				return "0x7010"
+			}
+			return line
+		}
 	} else {
 		uiInput.dflt = "0"
 	}
-	defer func() { uiInput.dflt = "0" }()
+	defer func() { uiInput.dflt = "0"; uiInput.adapt = nil }()
 
 	rapid.Check(t, func(t *rapid.T) {
 		col.Case()
@@ -223,28 +240,16 @@ func TestC22(t *testing.T) {
 				}
 				answers := []string{}
 				for i, n := 0, uniformInt(t, 3, "nAnswers"); i < n; i++ {
-					a := []string{"", "5", "xyz", "0x10", "-1", " ", "code", "code"}[uniformInt(t, 8, "answer")]
+					menu := []string{"", "5", "xyz", "0x10", "-1", " ", "code", "code", "-129", "-256", "-32769", "-2147483649",
+						"-9223372036854775809", "255", "256", "0x10000", "4294967296", "18446744073709551615", "18446744073709551616",
+						"0xffffffffffffffffff", "0b101", "017", "+7", "1_000", "0x"}
+					a := menu[uniformInt(t, len(menu), "answer")]
 					if a == "code" {
 						// an address in or next to the code: instruction starts, the middle of
 						// instructions, the end of the code and a little beyond
 						v := rvCodeBase - 4 + uint64(uniformInt(t, 4*len(p.words)+12, "codeOff"))
 						a = fmt.Sprintf([]string{"%d", "0x%x"}[uniformInt(t, 2, "codeFmt")], v)
 						col.Class("answer/code-address")
-					}
-					if endOfSpaceKnown {
-						// keep every answered data pointer at least 4 KiB away from both
-						// ends of the address space (offsets are 12 bit)
-						switch a {
-						case "-1":
-							col.Excluded("access-at-end-of-address-space")
-							a = "0x7000"
-						case "5":
-							col.Excluded("access-at-end-of-address-space")
-							a = "4101"
-						case "0x10":
-							col.Excluded("access-at-end-of-address-space")
-							a = "0x1010"
-						}
 					}
 					answers = append(answers, a)
 				}
@@ -279,7 +284,10 @@ func TestC22(t *testing.T) {
 			}
 		}
 		t.Repeat(map[string]func(*rapid.T){
-			"line": func(t *rapid.T) { oneLine(t, "") },
+			// three aliases: a generated line is three times as likely as a burst of steps
+			"line":  func(t *rapid.T) { oneLine(t, "") },
+			"line2": func(t *rapid.T) { oneLine(t, "") },
+			"line3": func(t *rapid.T) { oneLine(t, "") },
 			"steps": func(t *rapid.T) {
 				// several emulation steps in a row so that execution gets somewhere
 				if modeClass(ui.VerifModeName()) != "emulate" {
